@@ -14,7 +14,7 @@ ECOS = check_c20.ECOS
 def model(run, n):
     base = "SPECIFICATION SSpec\nINVARIANT IsPermutationOfInput\nINVARIANT NonDecreasing\nINVARIANT AllPairsOrdered\nINVARIANT ClassSeqCanonical\nCHECK_DEADLOCK FALSE\n"
     cfg = "CONSTANT N = %d\nCONSTANT O <- PreorderOracle\n" % n + base + "INVARIANT EmitPerm\n"
-    lines, st, dt = vlib.tlc(run, "MC_Sort", cfg, name="sort.preorder", workers=4, timeout=900)
+    lines, st, dt = vlib.tlc(run, "MC_Sort", cfg, name="sort.preorder", workers=4, timeout=900, coverage=True)
     perms = [v["perm"] for v in vlib.tagged(lines, "VEC")]
     # negative control: the cyclic oracle must violate AllPairsOrdered
     cfg2 = "CONSTANT N = 4\nCONSTANT O <- CycleOracle\nSPECIFICATION SSpec\nINVARIANT AllPairsOrdered\nCHECK_DEADLOCK FALSE\n"
